@@ -176,8 +176,8 @@ def boundary_texts():
     for d in ds:
         for L in ls:
             blk = blk_src[:L]
-            for lead in (0, 1):
-                out.append(_no_match_run(lead, 7000) + blk + _no_match_run(d - L) + blk + b';')
+            lead = (d + L) % 2
+            out.append(_no_match_run(lead, 7000) + blk + _no_match_run(d - L) + blk + b';')
     return out
 
 
@@ -247,16 +247,17 @@ def generate(tier, rng):
               for L in ((16, 17, 18) if quick else (3, 4, 15, 16, 17, 18, 19, 34, 35))]
     # every distance from well inside to well past the window (a window constant changed by a few blocks of 16
     # must show up as a different choice or as a packing failure), block length 17
-    combos += [(d, 17) for d in range(3100, 3160) if (d, 17) not in combos]
+    if not quick:
+        combos += [(d, 17) for d in range(3100, 3160) if (d, 17) not in combos]
     for d, L in combos:
         blk = bytes(rng.choice(b'abcdefghijklmnopqrstuvwxyz_=()') for _ in range(L))
         lead = _filler(rng, rng.choice([0, 1, 40]))
         edge.append(lead + blk + _filler(rng, d - L) + blk + _filler(rng, rng.choice([0, 3])))
-    for i in range(0, len(edge), 5):
-        yield _texts('edge', edge[i:i + 5])
+    for i in range(0, len(edge), 3):
+        yield _texts('edge', edge[i:i + 3], light=(i % 2 == 1))
     bt = boundary_texts()
-    for i in range(0, len(bt), 5):
-        yield _texts('boundary', bt[i:i + 5])
+    for i in range(0, len(bt), 3):
+        yield _texts('boundary', bt[i:i + 3], light=(i % 4 != 0))
     # 4. every cut position of texts built around blocks
     cut = []
     base = b'local abcdefghijklmnopqrs=1\n' + b'xy' + b'local abcdefghijklmnopqrs=12\n' + b'abcdefghijklmnopqrstuvw' + b'zz'
@@ -541,9 +542,41 @@ def histogram_key(case, obs):
     return case['group']
 
 
+class _Pre:
+    """prop facade whose run_impl returns precomputed observations (the implementation ran in a process pool)"""
+
+    def __init__(self, mod, table):
+        self._m = mod
+        self._t = table
+
+    def __getattr__(self, n):
+        return getattr(self._m, n)
+
+    def run_impl(self, case):
+        return self._t[id(case)]
+
+
+def _safe_impl(case):
+    try:
+        return lib.with_alarm(CASE_TIMEOUT, run_impl, case)
+    except lib.Timeout:
+        return {'timeout': True}
+
+
 def run_cases(cases, ctx):
+    import multiprocessing
     mod = __import__('props.c05', fromlist=['x'])
-    res = lib.standard_run(mod, cases, ctx)
+    if len(cases) > 2:
+        # heavy cases first so that the pool finishes evenly
+        order = sorted(range(len(cases)), key=lambda i: -sum(len(it.get('t', it.get('s', it.get('cd', '')))) ** 2 for it in cases[i]['items']))
+        with multiprocessing.get_context('fork').Pool(min(lib.NCPU, 12)) as pool:
+            got = pool.map(_safe_impl, [cases[i] for i in order], chunksize=1)
+        obs = [None] * len(cases)
+        for i, o in zip(order, got):
+            obs[i] = o
+    else:
+        obs = [_safe_impl(c) for c in cases]
+    res = lib.standard_run(_Pre(mod, {id(c): o for c, o in zip(cases, obs)}), cases, ctx)
     n = 0
     hist = {}
     keys = set()
@@ -571,11 +604,11 @@ def search(ctx, budget):
     t0 = time.time()
     viol, n = [], 0
     bt = boundary_texts()
-    first = [_texts('boundary', bt[i:i + 5]) for i in range(0, len(bt), 5)]
+    first = [_texts('boundary', bt[i:i + 3], light=True) for i in range(0, len(bt), 3)]
     for c in first + list(generate('quick', rng)):
         if time.time() - t0 > budget or viol:
             break
-        r = lib.standard_run(mod, [c], {'monitor_exe': ctx.get('monitor_exe'), 'model_exe': None})
+        r = run_cases([c], {'monitor_exe': ctx.get('monitor_exe'), 'model_exe': None})
         n += len(c['items'])
         viol.extend(r['violations'])
     return {'violations': viol, 'evaluations': n}
